@@ -50,10 +50,10 @@ type Device struct {
 	WidthSet  bool   // ASA: width already 511
 	Faults    []Fault
 	Transcr   []Rec
-	FaultSeq  int  // event seq at which the first fault was delivered (-1 none)
-	FaultK    int  // K of first fault
-	faultBufK int  // input lines with K <= faultBufK were buffered at fault time
-	Saved     int  // number of confirmed saves
+	FaultSeq  int // event seq at which the first fault was delivered (-1 none)
+	FaultK    int // K of first fault
+	faultBufK int // input lines with K <= faultBufK were buffered at fault time
+	Saved     int // number of confirmed saves
 	SaveTries int
 	Sessions  int
 	// IOS reload guard.
@@ -76,10 +76,10 @@ type Device struct {
 	held        string
 	// OnLine is called for every input line before it is processed
 	// (process mode: scheduling / crash point).
-	OnLine func(k int, line string)
-	k           int
-	sysMode   bool
-	stalled   bool
+	OnLine  func(k int, line string)
+	k       int
+	sysMode bool
+	stalled bool
 }
 
 func (d *Device) prompt() string {
